@@ -244,7 +244,18 @@ class MetadorNode(wrapt.ObjectProxy):
             # allow child nodes of local-only nodes to go up to the marked parent
             # (or it is None, if this is the local root)
             if lp := self._self_local_parent:
-                return lp
+                missing = {k.name: v for k, v in self.acl.items() if v and not lp.acl[k]}
+                if not missing:
+                    return lp
+                # this node was restricted further after it was handed out:
+                # the parent must not be less restricted than the node it is reached from
+                return MetadorGroup(
+                    self._self_container,
+                    lp.__wrapped__,
+                    local_parent=lp._self_local_parent,
+                    **{k.name: v for k, v in lp.acl.items() if v},
+                    **missing,
+                )
             else:
                 # raise exception (illegal non-local access)
                 self._guard_acl(NodeAcl.local_only, "parent")
